@@ -49,7 +49,7 @@ from nutree.common import DictWrapper
 from nutree.fs import FileSystemEntry, FileSystemTree
 from nutree.typed_tree import TypedTree
 
-from .. import gen, view
+from .. import gen, hist, view
 from ..harness import Result, Violation, clip, parallel, seed
 from .mut import _spec_json, spec_from_json
 
@@ -311,8 +311,30 @@ _fam("fs", new_tree=lambda: FileSystemTree("T"), load_cls=FileSystemTree, typed=
      value_custom=lambda L: {"custom": {"n": ["zz"] + sorted({_fs_entry(x).name for x in L})}}, style="FileSystemTree class mappers")
 
 
+def _mk_of(tree, nodes, base, fam):
+    """label -> data factory that hands out the objects already in the tree (so that a history's add() of a known
+    label makes a clone) and fresh ones otherwise"""
+    have = {r[1]: n._data for r, n in zip(base.nodes, nodes)}
+    fresh = fam.mk()
+    return lambda lab: have[lab] if lab in have else fresh(lab)
+
+
 def build(fam: Family, spec: gen.Spec):
     """Build the real tree through the public API.  Returns (tree, nodes in spec order)."""
+    if spec.hist is not None:
+        # the tree of `spec` as the result of a history (gen.history_specs): base tree, every accessor once, one change
+        base = gen.Spec(spec.hist[0], typed=spec.typed)
+        tree, nodes = build(fam, base)
+        hist.warm(tree, nodes)
+        mk = _mk_of(tree, nodes, base, fam)
+        if not hist.apply(tree, nodes, list(spec.hist[1]), mk, typed=fam.typed):
+            raise RuntimeError(f"history refused: {spec.short()}")
+        now = view.reachable(tree)
+        at = {id(n): i for i, n in enumerate(now)}
+        pv = [(-1 if n._parent is tree._root else at[id(n._parent)]) for n in now]
+        if pv != [r[0] for r in spec.nodes]:
+            raise RuntimeError(f"history leads to another shape than {spec.short()}")
+        return tree, now
     tree = fam.new_tree()
     mk = fam.mk()
     nodes = []
@@ -719,6 +741,12 @@ def case_list(tier: str):
     out += [("derived", s) for s in idclone_specs(N - 2)]
     out += [("derivedtyped", s) for s in gen.typed_specs(N - 1)]
     out += [("fs", s) for s in gen.plain_specs(N - 1)]
+    # trees reached by a history (all accessors evaluated, then one change) and larger trees
+    hb = N - 2
+    out += [("str", s) for s in gen.history_specs(gen.plain_specs(hb))] + [("typed", s) for s in gen.history_specs(gen.typed_specs(hb - 1, min_n=1))]
+    out += [("rec", s) for s in gen.history_specs(gen.plain_specs(hb))]
+    nb = 4 if tier == "quick" else 24
+    out += [("str", s) for s in gen.big_specs(5, nb, lo=18, hi=40)] + [("typed", s) for s in gen.big_specs(6, nb, lo=18, hi=40, typed=True)] + [("rec", s) for s in gen.big_specs(7, nb, lo=18, hi=40)]
     return out
 
 
